@@ -1,0 +1,9 @@
+//go:build verif
+
+package sanitize
+
+import "github.com/microcosm-cc/bluemonday"
+
+// VerifPolicy exposes the bluemonday policy HTML applies, so that the verification harness
+// can read its tables (allowed elements, attributes, URL schemes, flags).
+func VerifPolicy() *bluemonday.Policy { return policy }
